@@ -94,7 +94,9 @@ func genMessage(rng *rand.Rand, id int, big bool) *jsonrpc2.Message {
 	raw, _ := json.Marshal(payload)
 	idRaw, _ := json.Marshal(id)
 	if rng.Intn(2) == 0 {
-		return &jsonrpc2.Message{Request: &jsonrpc2.Request{Method: "vipnode_echo", Params: raw}, ID: idRaw, Version: jsonrpc2.Version}
+		var m jsonrpc2.Message
+		json.Unmarshal([]byte(fmt.Sprintf(`{"jsonrpc":%q,"id":%s,"method":"vipnode_echo","params":%s}`, jsonrpc2.Version, idRaw, raw)), &m)
+		return &m
 	}
 	if rng.Intn(4) == 0 {
 		return &jsonrpc2.Message{Response: &jsonrpc2.Response{Error: &jsonrpc2.ErrResponse{Code: -32000, Message: "boom ☃"}}, ID: idRaw, Version: jsonrpc2.Version}
